@@ -219,6 +219,18 @@ fn exec(verb: &str, items: &[Sexp], o: &mut Oracle) -> Option<String> {
     let bad = || Some("bad-request".to_string());
     match verb {
         "doc" => Some("ok".into()),
+        "gbs" => {
+            // gbs <doc> <type> <proto> <stack-KiB> <hex>: decode on a thread with a small stack (C09: no stack exhaustion)
+            let (Some(doc), Some(ty), Some(proto), Some(kib), Some(input)) = (a(1), a(2), a(3).and_then(Proto::of), a(4).and_then(|s| s.parse::<usize>().ok()), a(5).and_then(unhex)) else { return bad() };
+            let (doc, ty) = (doc.to_string(), ty.to_string());
+            let h = std::thread::Builder::new().stack_size(kib << 10).spawn(move || {
+                let mut o2 = Oracle { fails: vec![] };
+                let mut act = Recode { proto, input: &input, o: &mut o2, out: String::new(), keep: doc.ends_with('k') };
+                if !dispatch(&doc, &ty, &mut act) { return "unknown-type".to_string(); }
+                act.out
+            }).unwrap();
+            match h.join() { Ok(s) => Some(s), Err(_) => { o.fail("PANIC", "decode panicked on a small stack".into()); Some("panic".into()) } }
+        }
         "gd" | "gb" | "gl" | "ga" => {
             let (Some(doc), Some(ty), Some(proto)) = (a(1), a(2), a(3).and_then(Proto::of)) else { return bad() };
             let mut idx = 4;
